@@ -1,5 +1,5 @@
-// Native replay for C21: the real link_layer with the repository's test radio. In connection event n the central sends an LL_CHANNEL_MAP_REQ or
-// LL_CONNECTION_UPDATE_IND whose instant is n + delta, afterwards an ATT request. The reference: the indication is applied at its instant, or the link ends
+// Native replay for C21: the real link_layer with the repository's test radio. In connection event n the central sends an LL_CHANNEL_MAP_REQ,
+// LL_CONNECTION_UPDATE_IND or LL_PHY_UPDATE_IND whose instant is n + delta, afterwards an ATT request. The reference: the indication is applied at its instant, or the link ends
 // ('instant passed'); it never leaves the peripheral deaf to further data.
 #define BOOST_TEST_NO_MAIN
 #define BOOST_TEST_ALTERNATIVE_INIT_API
@@ -7,16 +7,18 @@
 #include "connected.hpp"
 #include "replay_util.hpp"
 
-using ll_t = unconnected_base< bluetoe::link_layer::buffer_sizes< 200u, 200u > >;
+using ll_t = unconnected_base_t< test::small_temperature_service, test::radio_with_2mbit, bluetoe::link_layer::buffer_sizes< 200u, 200u > >;
 
-static int play( bool map_req, int delta, bool verbose )
+static int play( int map_req, int delta, bool verbose )
 {
     ll_t ll;
     ll.respond_to( 37, valid_connection_request_pdu );
     const unsigned n = 4;                              // connection event in which the indication arrives (event counter n)
     for ( unsigned i = 0; i != n; ++i ) ll.ll_empty_pdu();
     const std::uint16_t instant = static_cast< std::uint16_t >( n + delta );
-    if ( map_req )
+    if ( map_req == 2 )
+        ll.ll_control_pdu( { 0x18, 0x02, 0x02, static_cast< std::uint8_t >( instant ), static_cast< std::uint8_t >( instant >> 8 ) } );
+    else if ( map_req )
         ll.ll_control_pdu( { 0x01, 0xff, 0xff, 0xff, 0xff, 0x0f, static_cast< std::uint8_t >( instant ), static_cast< std::uint8_t >( instant >> 8 ) } );
     else
         ll.ll_control_pdu( { 0x00, 0x01, 0x02, 0x00, 0x18, 0x00, 0x00, 0x00, 0x48, 0x00, static_cast< std::uint8_t >( instant ), static_cast< std::uint8_t >( instant >> 8 ) } );
@@ -32,10 +34,10 @@ static int play( bool map_req, int delta, bool verbose )
             if ( pdu.size() >= 7 && ( pdu[ 0 ] & 3 ) == 2 && pdu[ 4 ] == 0x04 && pdu[ 5 ] == 0x00 ) answered = true;
     }
     const bool link_alive = events_with_traffic >= n + 1 + 3 + 1 + 6;     // every scripted PDU was received: the link was not terminated
-    if ( verbose ) std::printf( "%s in event %u with instant %u: link %s, ATT request %s\n", map_req ? "LL_CHANNEL_MAP_REQ" : "LL_CONNECTION_UPDATE_IND", n, instant, link_alive ? "alive" : "ended", answered ? "answered" : "NOT answered" );
+    if ( verbose ) std::printf( "%s in event %u with instant %u: link %s, ATT request %s\n", ( map_req == 2 ? "LL_PHY_UPDATE_IND" : map_req ? "LL_CHANNEL_MAP_REQ" : "LL_CONNECTION_UPDATE_IND" ), n, instant, link_alive ? "alive" : "ended", answered ? "answered" : "NOT answered" );
     if ( link_alive && !answered ) {
         std::printf( "REPRODUCED: %s received in connection event %u with instant %u: the link is neither terminated ('instant passed') nor is the indication applied; the pending indication blocks "
-                     "handle_received_data() - an ATT Read Request sent 4 events later is never answered\n", map_req ? "LL_CHANNEL_MAP_REQ" : "LL_CONNECTION_UPDATE_IND", n, instant );
+                     "handle_received_data() - an ATT Read Request sent 4 events later is never answered\n", ( map_req == 2 ? "LL_PHY_UPDATE_IND" : map_req ? "LL_CHANNEL_MAP_REQ" : "LL_CONNECTION_UPDATE_IND" ), n, instant );
         return 1;
     }
     return 0;
@@ -44,7 +46,7 @@ int main( int argc, char** argv )
 {
     replay_args a( argc, argv );
     if ( a.has( "delta" ) ) return play( a.unum( "map", 1 ), (int)a.num( "delta" ), true );
-    for ( int map = 0; map <= 1; ++map ) for ( int delta = -3; delta <= 8; ++delta ) if ( play( map, delta, false ) ) return 1;
+    for ( int map = 0; map <= 2; ++map ) for ( int delta = -3; delta <= 8; ++delta ) if ( play( map, delta, false ) ) return 1;
     std::printf( "not reproduced\n" );
     return 0;
 }
